@@ -249,7 +249,19 @@ class Engine:
             ax.append(c != NONE_U)
         ax.append(z3.Not(TRUTHY(NONE_U)))
         ax.extend(self.lib.axioms())
+        ax.extend(self.registry_axioms())
         return ax
+
+    def registry_axioms(self):
+        if getattr(self, "_reg_ax", None) is None:
+            st = State(self, [])
+            st.next_ref = z3.Const("ref0", IntS)
+            self.lib.init_ghosts_min(st)
+            out = []
+            for cl in self.reg.axioms:
+                out.append(self.spec_bool(st, cl))
+            self._reg_ax = out
+        return self._reg_ax
 
     def ufunc(self, name):
         if name not in self.ufuncs:
@@ -269,6 +281,8 @@ class Engine:
             return self.lib.SEQ
         if shape == "ArrIntU":
             return z3.ArraySort(IntS, U)
+        if shape == "ArrIntInt":
+            return z3.ArraySort(IntS, IntS)
         return sort_of_shape(shape)
 
     # ======================================================================
@@ -638,6 +652,10 @@ class Engine:
             return a.t == b.t
         if isinstance(a, VStream) and isinstance(b, VStream):
             return a.t == b.t
+        if hasattr(a, "t") and hasattr(b, "t") and \
+                type(a).__name__ == "VSpecTerm" and \
+                type(b).__name__ == "VSpecTerm":
+            return a.t == b.t
         if isinstance(a, VFunc) and isinstance(b, VFunc) and \
                 a.t is not None and b.t is not None:
             return a.t == b.t
@@ -989,6 +1007,11 @@ class Engine:
             r = self.lib.property_get(st, obj, attr, line)
             if r is not None:
                 return r
+            pfc = self.reg.find_method(obj.cls, attr)
+            if pfc is not None and pfc.is_property:
+                if st.spec:
+                    return self.lib.apply_property_spec(st, pfc, obj)
+                return self.lib.apply_contract(st, pfc, obj, [], {}, line)
             return VFunc(name=attr, bound=obj)
         r = self.lib.getattr(st, obj, attr, line)
         if r is not None:
@@ -1034,6 +1057,14 @@ class Engine:
                     return obj.items[n]
                 raise RaiseEx("IndexError", line)
             raise Unsupported("symbolic tuple index")
+        if type(obj).__name__ == "VSpecTerm" and z3.is_array(obj.t):
+            e = obj.t[_as_int(idx) if obj.t.sort().domain() == IntS
+                      else self.coerce(st, idx, "U")]
+            if e.sort() == IntS:
+                return VInt(e)
+            if e.sort() == U:
+                return VU(e)
+            return type(obj)(e)
         r = self.lib.getitem(st, obj, idx, line)
         if r is not None:
             return r
@@ -1647,6 +1678,8 @@ class Engine:
             post_havoc()
         for cl in lc.inv:
             st.assume(self.spec_bool(st, cl))
+        for lm in getattr(lc, "lemmas", ()):
+            st.assume(self.spec_bool(st, lm))
         v0 = None
         if lc.variant:
             v0 = _as_int(self.spec_eval(st, lc.variant))
@@ -1791,6 +1824,8 @@ class Engine:
         self.bind_params(st, fc, node)
         self.lib.init_ghosts(st, fc)
         for cl in fc.requires:
+            st.assume(self.spec_bool(st, cl))
+        for cl in fc.defs:
             st.assume(self.spec_bool(st, cl))
         st.old = st.snapshot()
         st.old["pc_len"] = len(st.pc)
